@@ -364,22 +364,37 @@ class SymbolTable(OpTrait):
         from xdsl.dialects.builtin import StringAttr, SymbolRefAttr
 
         anchor: Operation | None = op
-        while anchor is not None and not anchor.has_trait(SymbolTable):
+        while anchor is not None and not anchor.has_trait(
+            SymbolTable, value_if_unregistered=False
+        ):
             anchor = anchor.parent_op()
         if anchor is None:
             raise ValueError(f"Operation {op} has no SymbolTable ancestor")
         if isinstance(name, str | StringAttr):
             name = SymbolRefAttr(name)
-        for o in anchor.regions[0].block.ops:
-            if (
-                sym_interface := o.get_trait(SymbolOpInterface)
-            ) is not None and sym_interface.get_sym_attr_name(o) == name.root_reference:
-                if not name.nested_references:
+
+        def lookup_in(table: Operation, sym_name: StringAttr) -> Operation | None:
+            for o in table.regions[0].block.ops:
+                if (
+                    sym_interface := o.get_trait(SymbolOpInterface)
+                ) is not None and sym_interface.get_sym_attr_name(o) == sym_name:
                     return o
-                nested_root, *nested_references = name.nested_references.data
-                nested_name = SymbolRefAttr(nested_root, nested_references)
-                return SymbolTable.lookup_symbol(o, nested_name)
-        return None
+            return None
+
+        symbol = lookup_in(anchor, name.root_reference)
+        for nested_reference in name.nested_references.data:
+            # Only symbol tables can be traversed by a nested reference, and the
+            # private symbols of a table are not visible from outside of it.
+            if symbol is None or not symbol.has_trait(
+                SymbolTable, value_if_unregistered=False
+            ):
+                return None
+            symbol = lookup_in(symbol, nested_reference)
+            if symbol is not None and symbol.get_attr_or_prop(
+                "sym_visibility"
+            ) == StringAttr("private"):
+                return None
+        return symbol
 
     @staticmethod
     def insert_or_update(
